@@ -444,14 +444,15 @@ Definition mk_net (nb : nbfun) (t : table) (flows : list flow) (tcp : bool) (npo
    is handed to f's own sink; an ACK (class f + 10000) put in at the destination travels the reverse
    path to the ACK sink.  route is a function: the packet reaches nothing else. *)
 Theorem routed_delivery : forall (nb : nbfun) (tcp : bool) (flows : list flow) (t : table) (nports : nat -> nat),
-  flows_ok nb tcp flows -> gen_fib nb tcp flows = Some t -> (forall n, length (nb n) <= nports n) ->
+  flows_ok nb tcp flows -> gen_fib nb tcp flows = Some t ->
   forall fl src rest fuel, In fl flows -> fpath fl = src :: rest -> length (fpath fl) <= fuel ->
+    (forall n, In n (fpath fl) -> length (nb n) <= nports n) ->
     route true true fuel (mk_net nb t flows tcp nports) src (fid fl) [] = Delivered (sink_of (fid fl)) (fpath fl) /\
     (tcp = true -> forall dst, last_node (fpath fl) = Some dst ->
        route true true fuel (mk_net nb t flows tcp nports) dst (ack_class (fid fl)) []
        = Delivered (sink_of (ack_class (fid fl))) (rev (fpath fl))).
 Proof.
-  intros nb tcp flows t nports Hok Ht Hports fl src rest fuel Hfl Hpath Hfuel.
+  intros nb tcp flows t nports Hok Ht fl src rest fuel Hfl Hpath Hfuel Hports.
   destruct (fib_follows_path nb tcp flows Hok) as (t' & Ht' & Hfollow & _).
   rewrite Ht in Ht'. injection Ht' as <-.
   destruct Hok as (Hnd & Hok). destruct (Hok fl Hfl) as (Hrange & Hpnd & _).
@@ -460,9 +461,9 @@ Proof.
   { generalize (fpath fl). induction l as [|u l IH]; intros a z H; [destruct H|]. destruct l as [|v r]; [destruct H|].
     rewrite segs_cons2 in H. destruct H as [[= <- <-]|H]; [exists 0; auto|].
     destruct (IH a z H) as (i & H1 & H2). exists (S i). auto. }
-  assert (Hport : forall a port z, p2n (nb a) port = Some z -> port < nports a).
-  { intros a port z Hp. unfold p2n in Hp. assert (port < length (nb a)) by (apply nth_error_Some; congruence).
-    specialize (Hports a). lia. }
+  assert (Hport : forall a port z, In a (fpath fl) -> p2n (nb a) port = Some z -> port < nports a).
+  { intros a port z Ha Hp. unfold p2n in Hp. assert (port < length (nb a)) by (apply nth_error_Some; congruence).
+    specialize (Hports a Ha). lia. }
   split.
   - rewrite Hpath.
     apply (route_along w (fid fl) (sink_of (fid fl)) rest [] src fuel).
@@ -473,7 +474,7 @@ Proof.
         -- destruct (Hok fl' Hfl') as (Hr' & _). unfold ack_class in Hk. lia.
       * destruct (Hnth x z Hin) as (i & H1 & H2).
         destruct (Hfollow fl i x z Hfl H1 H2) as ((port & Hg & Hp) & _).
-        exists port. repeat split; auto. eapply Hport; eauto.
+        exists port. repeat split; auto. apply (Hport x port z); auto. apply segs_in in Hin as [Hin _]. exact Hin.
     + rewrite <- Hpath. intros d Hd.
       destruct (lookup_in_some (node_ends flows tcp d) (fid fl) (sink_of (fid fl))) as [s Hs].
       { apply node_ends_in. exists fl. auto. }
@@ -495,7 +496,8 @@ Proof.
            apply segs_in in Hin as (_ & Hin). cbn [tl] in Hin. inversion Hpnd; contradiction.
       * destruct (Hnth z x Hin) as (i & H1 & H2).
         destruct (Hfollow fl i z x Hfl H1 H2) as (_ & Hr). destruct (Hr Htcp) as (rp & Hg & Hp).
-        exists rp. repeat split; auto. eapply Hport; eauto.
+        exists rp. repeat split; auto. apply (Hport x rp z); auto.
+        apply segs_in in Hin as [_ Hin]. destruct (fpath fl) as [|u l]; [destruct Hin|]. right. exact Hin.
     + rewrite <- Hrev. intros d Hd.
       assert (d = src).
       { unfold last_node in Hd. rewrite rev_involutive, Hpath in Hd. congruence. }
